@@ -259,8 +259,17 @@ fn do_step(
         if hard_fail && ok {
             rep.fail("c10/refusal-or-stall-not-error", &format!("a member refused/stalled ({behs:?}) but the transition returned Ok"), &line);
         }
-        if hard_fail && !ok && !lost_any && tok != "timeout:statetransition" {
+        // a refusal shows up as error indication => Err(StateTransition) at the first poll that
+        // reads it; a stall as the transition timeout
+        let error_cause = stale_error || behs.iter().any(|b| matches!(b, Beh::Refuse(_) | Beh::FallBack(..)));
+        if hard_fail && !ok && !lost_any && tok != "timeout:statetransition" && !(tok == "statetransition" && error_cause) {
             rep.fail("c10/refusal-or-stall-wrong-error", &format!("a member refused/stalled but the result is {tok}"), &line);
+        }
+        if tok == "statetransition" && !error_cause {
+            rep.fail("c10/spurious-error", &format!("StateTransition error although no member signals an error ({behs:?})"), &line);
+        }
+        if stale_error && ok {
+            rep.fail("c10/ok-despite-error-indication", "a member had its error indication set before the (non-acknowledging) request, yet the transition returned Ok", &line);
         }
         if !ok && elapsed > STATE_TRANSITION_US + TICK_US + PDU_US {
             rep.fail("c10/error-after-deadline", &format!("error returned after {elapsed} us, timeout is {STATE_TRANSITION_US} us"), &line);
@@ -697,7 +706,7 @@ fn main() {
     let mut rep = Report::default();
     if let Some(cases) = ecverif::replay_cases(&args) {
         let mut seen = std::collections::BTreeSet::new();
-        // the witnesses of the known findings run in every mode, so their KNOWN-FINDING lines stay stable
+        // the former witnesses of the repaired findings run in every mode: they must pass
         tr_world(1, &mut rep, Some("errind"));
         if let Some(mut w) = sum_world(2) {
             one_sum(&mut w, &[8, 0], "u2", &mut rep);
